@@ -207,7 +207,7 @@ def r2_value_tags(chk: Check):
 
     def ev_ret(n, rd_):
         if n.kind == "stmt" and isinstance(n.ast, ast.Return):
-            return ["return " + ("None" if n.ast.value is None or (isinstance(n.ast.value, ast.Constant) and n.ast.value.value is None) else src(n.ast.value))]
+            return ["return " + ("None" if n.ast.value is None or (isinstance(n.ast.value, ast.Constant) and n.ast.value.value is None) else rd_.canon(n.ast.value, n))]
         return []
 
     def none_test(n, rd_):
